@@ -35,7 +35,21 @@ def register(M):
         if isinstance(h, Obj) and h.kind == 'hook':
             ex.env['panic_hook'] = h.which
         elif isinstance(h, Adt) and h.ty.startswith('{closure@'):
-            ex.env['panic_hook'] = 'silenced'
+            # a closure that only forwards to a captured hook behaves like that hook; a capture-less one is the silent hook
+            caps = []
+            for v in h.fields.values():
+                v = ex.materialize(v)
+                for _ in range(3):
+                    if isinstance(v, Ref):
+                        v = ex.materialize(ex.read_path(v.cell, v.path))
+                caps.append(v)
+            hooks = [c for c in caps if isinstance(c, Obj) and c.kind == 'hook']
+            if len(caps) == 1 and len(hooks) == 1:
+                ex.env['panic_hook'] = hooks[0].which
+            elif not caps:
+                ex.env['panic_hook'] = 'silenced'
+            else:
+                raise Inconclusive('set_hook(closure capturing %r)' % (caps,))
         else:
             raise Inconclusive('set_hook(%r)' % (h,))
         log(ex, 'set_hook', now=ex.env['panic_hook'])
